@@ -38,7 +38,7 @@ SPEC = dict(
         G('tostring', [I('tostring', 'h_tostring', unwind=4, mem_gb=4, bound='the 10 non-HT mechanism rows of the table, symbolic row index')], ['qt_core.c', 'qt_list.c', 'models.c']),
         # composition check without the cut: real parser inside the real choice
         G('e2e', [I('e2e_o1_d1', 'h_choose', cdefs=od(1, 1), mem_gb=4, bound='uncut, offer list of exactly 1 name, 1 disabled name'),
-                  I('e2e_o2_d2', 'h_choose', cdefs=od(2, 2), tiers=T, mem_gb=14, timeout_s=1500, bound='uncut, offer list of exactly 2 names, 2 disabled names'),
+                  I('e2e_o2_d2', 'h_choose', cdefs=od(2, 2), tiers=T, mem_gb=14, timeout_s=1500, object_bits=12, bound='uncut, offer list of exactly 2 names, 2 disabled names'),
                   I('alias_bypass', 'h_alias_bypass', cdefs=od(1, 1), mem_gb=2.5, bound='concrete: offer ["HT-SHA-256SHA-384-NONE"], disabled ["HT-SHA-384-NONE"], token HT-SHA-384-NONE')],
           BASE),
     ],
